@@ -14,6 +14,7 @@ from .ber import Node
 MENU = [
     "len+1", "len-1", "len=0", "len-indefinite", "len-84-ffffffff", "len-126-octets", "len-81-form", "len-84-form",
     "class+1", "class-1", "tag=31", "tag=31-dangling", "pc-flip", "empty", "truncate-1", "delete", "duplicate", "append-junk",
+    "stub-1", "stub-2",
 ]  # fmt: skip
 
 
@@ -90,6 +91,12 @@ def apply(tree: Node, idx: int, label: str) -> t.Optional[bytes]:
             return None
         i = [k for k, c in enumerate(parent.children) if c is n][0]  # type: ignore[arg-type]
         parent.children.insert(i, n.copy())  # type: ignore[union-attr]
+    elif label in ("stub-1", "stub-2"):
+        # the element is cut down to the start of its own header: the parent's content now ends inside a TLV header
+        n.rawident = ber.enc_ident(n.cls, n.constructed, n.num)[:1]
+        n.rawlen = b"" if label == "stub-1" else b"\x82"
+        n.children = None
+        n.content = b""
     elif label == "append-junk":
         if n.children is None:
             return None
